@@ -88,10 +88,10 @@ type Int32 struct {
 	v int32
 }
 
-func (x *Int32) Load() int32           { x.c.op(0, false); return x.v }
-func (x *Int32) Store(v int32)         { x.c.op(0, true); x.v = v }
-func (x *Int32) Swap(v int32) int32    { x.c.op(0, true); o := x.v; x.v = v; return o }
-func (x *Int32) Add(d int32) int32     { x.c.op(0, true); x.v += d; return x.v }
+func (x *Int32) Load() int32        { x.c.op(0, false); return x.v }
+func (x *Int32) Store(v int32)      { x.c.op(0, true); x.v = v }
+func (x *Int32) Swap(v int32) int32 { x.c.op(0, true); o := x.v; x.v = v; return o }
+func (x *Int32) Add(d int32) int32  { x.c.op(0, true); x.v += d; return x.v }
 func (x *Int32) CompareAndSwap(o, n int32) bool {
 	x.c.op(0, true)
 	if x.v == o {
@@ -107,10 +107,10 @@ type Int64 struct {
 	v int64
 }
 
-func (x *Int64) Load() int64           { x.c.op(0, false); return x.v }
-func (x *Int64) Store(v int64)         { x.c.op(0, true); x.v = v }
-func (x *Int64) Swap(v int64) int64    { x.c.op(0, true); o := x.v; x.v = v; return o }
-func (x *Int64) Add(d int64) int64     { x.c.op(0, true); x.v += d; return x.v }
+func (x *Int64) Load() int64        { x.c.op(0, false); return x.v }
+func (x *Int64) Store(v int64)      { x.c.op(0, true); x.v = v }
+func (x *Int64) Swap(v int64) int64 { x.c.op(0, true); o := x.v; x.v = v; return o }
+func (x *Int64) Add(d int64) int64  { x.c.op(0, true); x.v += d; return x.v }
 func (x *Int64) CompareAndSwap(o, n int64) bool {
 	x.c.op(0, true)
 	if x.v == o {
@@ -126,10 +126,10 @@ type Uint32 struct {
 	v uint32
 }
 
-func (x *Uint32) Load() uint32          { x.c.op(0, false); return x.v }
-func (x *Uint32) Store(v uint32)        { x.c.op(0, true); x.v = v }
-func (x *Uint32) Swap(v uint32) uint32  { x.c.op(0, true); o := x.v; x.v = v; return o }
-func (x *Uint32) Add(d uint32) uint32   { x.c.op(0, true); x.v += d; return x.v }
+func (x *Uint32) Load() uint32         { x.c.op(0, false); return x.v }
+func (x *Uint32) Store(v uint32)       { x.c.op(0, true); x.v = v }
+func (x *Uint32) Swap(v uint32) uint32 { x.c.op(0, true); o := x.v; x.v = v; return o }
+func (x *Uint32) Add(d uint32) uint32  { x.c.op(0, true); x.v += d; return x.v }
 func (x *Uint32) CompareAndSwap(o, n uint32) bool {
 	x.c.op(0, true)
 	if x.v == o {
@@ -145,10 +145,10 @@ type Uint64 struct {
 	v uint64
 }
 
-func (x *Uint64) Load() uint64          { x.c.op(0, false); return x.v }
-func (x *Uint64) Store(v uint64)        { x.c.op(0, true); x.v = v }
-func (x *Uint64) Swap(v uint64) uint64  { x.c.op(0, true); o := x.v; x.v = v; return o }
-func (x *Uint64) Add(d uint64) uint64   { x.c.op(0, true); x.v += d; return x.v }
+func (x *Uint64) Load() uint64         { x.c.op(0, false); return x.v }
+func (x *Uint64) Store(v uint64)       { x.c.op(0, true); x.v = v }
+func (x *Uint64) Swap(v uint64) uint64 { x.c.op(0, true); o := x.v; x.v = v; return o }
+func (x *Uint64) Add(d uint64) uint64  { x.c.op(0, true); x.v += d; return x.v }
 func (x *Uint64) CompareAndSwap(o, n uint64) bool {
 	x.c.op(0, true)
 	if x.v == o {
@@ -164,10 +164,10 @@ type Uintptr struct {
 	v uintptr
 }
 
-func (x *Uintptr) Load() uintptr           { x.c.op(0, false); return x.v }
-func (x *Uintptr) Store(v uintptr)         { x.c.op(0, true); x.v = v }
-func (x *Uintptr) Swap(v uintptr) uintptr  { x.c.op(0, true); o := x.v; x.v = v; return o }
-func (x *Uintptr) Add(d uintptr) uintptr   { x.c.op(0, true); x.v += d; return x.v }
+func (x *Uintptr) Load() uintptr          { x.c.op(0, false); return x.v }
+func (x *Uintptr) Store(v uintptr)        { x.c.op(0, true); x.v = v }
+func (x *Uintptr) Swap(v uintptr) uintptr { x.c.op(0, true); o := x.v; x.v = v; return o }
+func (x *Uintptr) Add(d uintptr) uintptr  { x.c.op(0, true); x.v += d; return x.v }
 func (x *Uintptr) CompareAndSwap(o, n uintptr) bool {
 	x.c.op(0, true)
 	if x.v == o {
@@ -183,9 +183,9 @@ type Bool struct {
 	v bool
 }
 
-func (x *Bool) Load() bool         { x.c.op(0, false); return x.v }
-func (x *Bool) Store(v bool)       { x.c.op(0, true); x.v = v }
-func (x *Bool) Swap(v bool) bool   { x.c.op(0, true); o := x.v; x.v = v; return o }
+func (x *Bool) Load() bool       { x.c.op(0, false); return x.v }
+func (x *Bool) Store(v bool)     { x.c.op(0, true); x.v = v }
+func (x *Bool) Swap(v bool) bool { x.c.op(0, true); o := x.v; x.v = v; return o }
 func (x *Bool) CompareAndSwap(o, n bool) bool {
 	x.c.op(0, true)
 	if x.v == o {
@@ -201,9 +201,9 @@ type Pointer[T any] struct {
 	v *T
 }
 
-func (x *Pointer[T]) Load() *T         { x.c.op(0, false); return x.v }
-func (x *Pointer[T]) Store(v *T)       { x.c.op(0, true); x.v = v }
-func (x *Pointer[T]) Swap(v *T) *T     { x.c.op(0, true); o := x.v; x.v = v; return o }
+func (x *Pointer[T]) Load() *T     { x.c.op(0, false); return x.v }
+func (x *Pointer[T]) Store(v *T)   { x.c.op(0, true); x.v = v }
+func (x *Pointer[T]) Swap(v *T) *T { x.c.op(0, true); o := x.v; x.v = v; return o }
 func (x *Pointer[T]) CompareAndSwap(o, n *T) bool {
 	x.c.op(0, true)
 	if x.v == o {
@@ -219,7 +219,7 @@ type Value struct {
 	v interface{}
 }
 
-func (x *Value) Load() interface{}  { x.c.op(0, true); return x.v }
+func (x *Value) Load() interface{} { x.c.op(0, true); return x.v }
 func (x *Value) Store(v interface{}) {
 	if v == nil {
 		panic("sync/atomic: store of nil value into Value")
@@ -257,15 +257,15 @@ func StorePointer(p *unsafe.Pointer, v unsafe.Pointer) {
 	at(unsafe.Pointer(p))
 	*p = v
 }
-func AddInt32(p *int32, d int32) int32       { at(unsafe.Pointer(p)); *p += d; return *p }
-func AddInt64(p *int64, d int64) int64       { at(unsafe.Pointer(p)); *p += d; return *p }
-func AddUint32(p *uint32, d uint32) uint32   { at(unsafe.Pointer(p)); *p += d; return *p }
-func AddUint64(p *uint64, d uint64) uint64   { at(unsafe.Pointer(p)); *p += d; return *p }
-func AddUintptr(p *uintptr, d uintptr) uintptr { at(unsafe.Pointer(p)); *p += d; return *p }
-func SwapInt32(p *int32, v int32) int32       { at(unsafe.Pointer(p)); o := *p; *p = v; return o }
-func SwapInt64(p *int64, v int64) int64       { at(unsafe.Pointer(p)); o := *p; *p = v; return o }
-func SwapUint32(p *uint32, v uint32) uint32   { at(unsafe.Pointer(p)); o := *p; *p = v; return o }
-func SwapUint64(p *uint64, v uint64) uint64   { at(unsafe.Pointer(p)); o := *p; *p = v; return o }
+func AddInt32(p *int32, d int32) int32          { at(unsafe.Pointer(p)); *p += d; return *p }
+func AddInt64(p *int64, d int64) int64          { at(unsafe.Pointer(p)); *p += d; return *p }
+func AddUint32(p *uint32, d uint32) uint32      { at(unsafe.Pointer(p)); *p += d; return *p }
+func AddUint64(p *uint64, d uint64) uint64      { at(unsafe.Pointer(p)); *p += d; return *p }
+func AddUintptr(p *uintptr, d uintptr) uintptr  { at(unsafe.Pointer(p)); *p += d; return *p }
+func SwapInt32(p *int32, v int32) int32         { at(unsafe.Pointer(p)); o := *p; *p = v; return o }
+func SwapInt64(p *int64, v int64) int64         { at(unsafe.Pointer(p)); o := *p; *p = v; return o }
+func SwapUint32(p *uint32, v uint32) uint32     { at(unsafe.Pointer(p)); o := *p; *p = v; return o }
+func SwapUint64(p *uint64, v uint64) uint64     { at(unsafe.Pointer(p)); o := *p; *p = v; return o }
 func SwapUintptr(p *uintptr, v uintptr) uintptr { at(unsafe.Pointer(p)); o := *p; *p = v; return o }
 func SwapPointer(p *unsafe.Pointer, v unsafe.Pointer) unsafe.Pointer {
 	at(unsafe.Pointer(p))
@@ -321,3 +321,26 @@ func CompareAndSwapPointer(p *unsafe.Pointer, o, n unsafe.Pointer) bool {
 	}
 	return false
 }
+
+// And / Or (Go 1.23): return the old value.
+func AndInt32(p *int32, m int32) int32         { at(unsafe.Pointer(p)); o := *p; *p &= m; return o }
+func AndInt64(p *int64, m int64) int64         { at(unsafe.Pointer(p)); o := *p; *p &= m; return o }
+func AndUint32(p *uint32, m uint32) uint32     { at(unsafe.Pointer(p)); o := *p; *p &= m; return o }
+func AndUint64(p *uint64, m uint64) uint64     { at(unsafe.Pointer(p)); o := *p; *p &= m; return o }
+func AndUintptr(p *uintptr, m uintptr) uintptr { at(unsafe.Pointer(p)); o := *p; *p &= m; return o }
+func OrInt32(p *int32, m int32) int32          { at(unsafe.Pointer(p)); o := *p; *p |= m; return o }
+func OrInt64(p *int64, m int64) int64          { at(unsafe.Pointer(p)); o := *p; *p |= m; return o }
+func OrUint32(p *uint32, m uint32) uint32      { at(unsafe.Pointer(p)); o := *p; *p |= m; return o }
+func OrUint64(p *uint64, m uint64) uint64      { at(unsafe.Pointer(p)); o := *p; *p |= m; return o }
+func OrUintptr(p *uintptr, m uintptr) uintptr  { at(unsafe.Pointer(p)); o := *p; *p |= m; return o }
+
+func (x *Int32) And(m int32) int32       { x.c.op(0, true); o := x.v; x.v &= m; return o }
+func (x *Int32) Or(m int32) int32        { x.c.op(0, true); o := x.v; x.v |= m; return o }
+func (x *Int64) And(m int64) int64       { x.c.op(0, true); o := x.v; x.v &= m; return o }
+func (x *Int64) Or(m int64) int64        { x.c.op(0, true); o := x.v; x.v |= m; return o }
+func (x *Uint32) And(m uint32) uint32    { x.c.op(0, true); o := x.v; x.v &= m; return o }
+func (x *Uint32) Or(m uint32) uint32     { x.c.op(0, true); o := x.v; x.v |= m; return o }
+func (x *Uint64) And(m uint64) uint64    { x.c.op(0, true); o := x.v; x.v &= m; return o }
+func (x *Uint64) Or(m uint64) uint64     { x.c.op(0, true); o := x.v; x.v |= m; return o }
+func (x *Uintptr) And(m uintptr) uintptr { x.c.op(0, true); o := x.v; x.v &= m; return o }
+func (x *Uintptr) Or(m uintptr) uintptr  { x.c.op(0, true); o := x.v; x.v |= m; return o }
